@@ -45,7 +45,7 @@ PROPS = {
         'text': 'Each of the ~80 box builders (progressive and fragmented), extracted from /repo, is proved to return exactly mk_box(type, children...) as prescribed; tiling lemmas show that init segment, media segment and moov '
                 'are trees of boxes whose sizes tile their parents with the mandatory children and consistent entry counts; finalize proves the top-level order ftyp, mdat?, moov.',
         'note': A2 + '; box sizes above 4 GiB are outside the claim except where listed as findings',
-        'kani': [], 'assumptions': [A2],
+        'kani': ['kb_finalize_tiling'], 'assumptions': [A2],
     },
     'C03': {
         'title': 'Decode and composition timing in the file equals the submitted timestamps',
